@@ -29,10 +29,11 @@ type Fact struct {
 }
 
 type ctx struct {
-	repo  string
-	fset  *token.FileSet
-	files map[string]*ast.File
-	facts []Fact
+	outDir string
+	repo   string
+	fset   *token.FileSet
+	files  map[string]*ast.File
+	facts  []Fact
 }
 
 func (c *ctx) file(rel string) *ast.File {
@@ -119,7 +120,7 @@ func isNilIdent(e ast.Expr) bool {
 
 // Run extracts every fact and writes Generated/*.lean plus facts.json into outDir.
 func Run(repo, outDir string) error {
-	c := &ctx{repo: repo, fset: token.NewFileSet(), files: map[string]*ast.File{}}
+	c := &ctx{repo: repo, outDir: outDir, fset: token.NewFileSet(), files: map[string]*ast.File{}}
 	c.window()
 	for _, fn := range extraExtractors {
 		fn(c)
